@@ -39,6 +39,26 @@ class Unit:
         self.undecided = list(undecided)  # parts of the property statements this unit does not decide
 
 
+def _piece_chars(piece):
+    """the characters of a literal piece as Rust char literals, or None if it uses an escape this helper does not know"""
+    out, i = [], 0
+    esc = {'n': "'\\n'", 't': "'\\t'", 'r': "'\\r'", '\\': "'\\\\'", '"': "'\"'", "'": "'\\''", '0': "'\\0'"}
+    while i < len(piece):
+        c = piece[i]
+        if c == '\\':
+            if i + 1 >= len(piece) or piece[i + 1] not in esc:
+                return None
+            out.append(esc[piece[i + 1]]); i += 2; continue
+        if c == "'":
+            out.append("'\\''")
+        elif ord(c) < 32:
+            return None
+        else:
+            out.append("'%s'" % c)
+        i += 1
+    return out
+
+
 class Undecided(Exception):
     """machinery cannot decide (lost anchor, front-end rejection, ...): exit 2, never a VIOLATION"""
 
@@ -204,6 +224,13 @@ def build(unit, extra_edits=None):
         # the literal's pieces as ghost constants: a proof can name the incidental text around the part a property speaks about
         for k, piece in enumerate(site['pieces']):
             parts.append('pub open spec fn %s_p%d() -> Seq<char> { %s }\n' % (site['name'], k, ('"%s"@' % piece) if piece != '' else 'Seq::<char>::empty()'))
+        # ... and, where the piece uses only simple escapes, a lemma that spells its characters out (proofs about what a literal starts with)
+        for k, piece in enumerate(site['pieces']):
+            chars = _piece_chars(piece)
+            if chars is not None:
+                parts.append('pub proof fn %s_p%d_chars()\n    ensures %s_p%d() =~= %s\n{ %s }\n'
+                             % (site['name'], k, site['name'], k, ('seq![' + ', '.join(chars) + ']') if chars else 'Seq::<char>::empty()',
+                                ('reveal_strlit("%s");' % piece) if piece != '' else ''))
         prov['outlines'].append({'id': site['name'], 'decl': 'format site, literal ' + site['literal'], 'body': '%s(%s, ..)' % ('write!' if site.get('writer') else 'format!', site['literal']), 'compiled': False})
     if unit.epilogue:
         parts.append('// ==== unit epilogue (ghost lemmas)\n' + unit.epilogue + '\n')
